@@ -73,7 +73,7 @@ Print Assumptions C12_sarif_region.
 
 (* ---------------------------------------------------------------- C. the builder model *)
 Theorem C12_model_reports_the_construct_line : forall q f c,
-  q_rs_chain_start q = false -> q_ts_decorator_start q = false -> q_ts_console_chain_start q = false ->
+  q_rs_chain_start q = false -> q_ts_console_chain_start q = false ->
   q_fh_header_relative q = false -> q_col_const_unclamped q = false ->
   wf_construct f c = true -> loc_ok f c (model_line q c) (model_col q f c) = true.
 Proof. exact model_ideal_ok. Qed.
@@ -84,9 +84,16 @@ Theorem C12_loc_ok_is_the_property : forall f c line col, loc_ok f c line col = 
 Proof. exact loc_ok_means. Qed.
 Print Assumptions C12_loc_ok_is_the_property.
 
+(* for the builders no deviation flag refers to - SRP on TypeScript among them since the repair of the decorated-class
+   line (147bf8d) - the property holds for the faithful model under EVERY quirk vector *)
+Theorem C12_flag_free_builders_exact : forall q f c,
+  flag_free (k_builder c) = true -> wf_construct f c = true -> const_col_fits f c = true ->
+  loc_ok f c (model_line q c) (model_col q f c) = true.
+Proof. exact model_flag_free_exact. Qed.
+Print Assumptions C12_flag_free_builders_exact.
+
 (* partial (the full statement is the previous theorem): for ANY quirk vector - in particular the one claimed for the
-   current tree - the property holds for every construct without a separate node start (no decorator in front of a
-   TypeScript class, no method chain broken over lines, header text starting on line 1) on whose line a constant column fits *)
+   current tree - the property holds for every construct without a separate node start (no method chain broken over lines, header text starting on line 1) on whose line a constant column fits *)
 Theorem C12_model_confined_partial : forall q f c,
   wf_construct f c = true -> plain_construct c = true -> const_col_fits f c = true ->
   loc_ok f c (model_line q c) (model_col q f c) = true.
@@ -170,12 +177,13 @@ Proof. exact spec_ok_sound. Qed.
 Print Assumptions C12_judge_is_sound.
 
 (* non-vacuity: a three-line TypeScript file with a decorated class and a method; the ideal model reports the class at
-   the `class` line and the method at its own position, both inside the file; a report there is accepted by the judge *)
+   the `class` line and the method at its own position, both inside the file; a report there is accepted by the judge and is
+   what the faithful model predicts *)
 Definition ex_file : lfile := ["@Dec"; "class DataHandler { m() { if (a) {"; "  b(); } } }"].
 Definition ex_cons : list construct := [K "srp.ts" "DataHandler" 1 0 0 0; K "nesting.ts" "m" 1 20 1 20].
 Example C12_nonvacuous :
   forallb (wf_construct ex_file) ex_cons = true
   /\ map (fun c => (model_line loc_ideal c, model_col loc_ideal ex_file c)) ex_cons = [(2, 0); (2, 20)]
   /\ judge loc_actual ex_file ex_cons [R "srp.ts" "DataHandler" 2 0 ["DataHandler"] ["class "] true]
-     = [[true; true; false; false; true; false; false; false; true]].
+     = [[true; true; true; true; true; true; true; true]].
 Proof. vm_compute. repeat split; reflexivity. Qed.
